@@ -49,6 +49,13 @@ class Outcome:
         return (self.kind, self.value if isinstance(self.value, (bool, int, type(None))) else "<expr>")
 
 
+class ModelRaise(Exception):
+    """A modelled callee raised: the calling statement raises too."""
+    def __init__(self, outcome):
+        super().__init__("callee raises")
+        self.outcome = outcome
+
+
 SymFn = Callable[[ast.expr], Any]
 NOT_MODELLED = object()
 
@@ -109,6 +116,12 @@ class Evaluator:
                 raise Unsupported(e, "unbound attribute")
             if isinstance(base, Obj) and e.attr in base.__dict__:
                 return base.__dict__[e.attr]
+            if isinstance(base, Obj) and "_cls" in base.__dict__ and getattr(self, "call_value", None) is not None:
+                # a property of a class-tagged model object is evaluated like a method call without arguments
+                fake = ast.Call(func=e, args=[], keywords=[])
+                v = self.call_value(ast.copy_location(fake, e), self)
+                if v is not NOT_MODELLED:
+                    return v
             raise Unsupported(e, "unbound attribute")
         if isinstance(e, ast.Call) and isinstance(e.func, ast.Name) and e.func.id in ("len", "max", "min", "abs", "int", "bool", "sum", "any", "all", "str", "tuple", "list", "range", "bytes", "divmod", "bytearray", "reversed", "enumerate", "sorted", "zip") \
                 and all(k.arg in ("default", "start") for k in e.keywords):
@@ -120,6 +133,32 @@ class Evaluator:
                         "zip": lambda *a: tuple(zip(*a))}[e.func.id](*args, **kw)
             except Exception:
                 raise Unsupported(e)
+        if isinstance(e, ast.Call) and isinstance(e.func, ast.Attribute) and e.func.attr in ("to_bytes", "from_bytes") and 1 <= len(e.args) + len(e.keywords) <= 3 \
+                and all(k.arg in ("length", "byteorder", "signed", "bytes") for k in e.keywords):
+            # int <-> bytes conversions on modelled values: x.to_bytes(n, order) / int.to_bytes(x, n, order) / int.from_bytes(b, order)
+            on_int_type = isinstance(e.func.value, ast.Name) and e.func.value.id == "int"
+            pos = [self.ev(a) for a in e.args]
+            kw = {k.arg: self.ev(k.value) for k in e.keywords}
+            try:
+                if e.func.attr == "from_bytes" and on_int_type:
+                    return int.from_bytes(*[bytes(p) if isinstance(p, (bytes, bytearray)) else p for p in pos], **kw)
+                if e.func.attr == "to_bytes":
+                    if on_int_type:
+                        return int.to_bytes(*pos, **kw)
+                    v = self.ev(e.func.value)
+                    if isinstance(v, int) and not isinstance(v, bool):
+                        return v.to_bytes(*pos, **kw)
+            except (OverflowError, ValueError, TypeError):
+                raise Unsupported(e, "conversion error on the model")
+            raise Unsupported(e)
+        if isinstance(e, ast.Call) and isinstance(e.func, ast.Name) and e.func.id == "isinstance" and len(e.args) == 2 and not e.keywords:
+            tys = {"str": str, "bytes": bytes, "int": int, "bytearray": bytearray, "bool": bool, "list": tuple, "tuple": tuple}
+            names = [e.args[1]] if isinstance(e.args[1], ast.Name) else list(e.args[1].elts) if isinstance(e.args[1], ast.Tuple) else None
+            if names and all(isinstance(n, ast.Name) and n.id in tys for n in names):
+                v = self.ev(e.args[0])
+                if not isinstance(v, Obj):
+                    return isinstance(v, tuple(tys[n.id] for n in names))
+            raise Unsupported(e)
         if isinstance(e, ast.Call) and isinstance(e.func, ast.Attribute) and e.func.attr == "join" and len(e.args) == 1 and not e.keywords \
                 and ast.unparse(e.func.value) in ("b''", "bytes()", "bytearray()", "''"):
             # <empty separator>.join(seq): concatenation of a modelled sequence of bytes / str
@@ -208,9 +247,9 @@ class Evaluator:
                 return a - b
             if isinstance(op, ast.Mult):
                 return a * b
-            if isinstance(op, ast.LShift) and 0 <= b < 80:
+            if isinstance(op, ast.LShift) and 0 <= b <= 4096:
                 return a << b
-            if isinstance(op, ast.RShift) and 0 <= b < 80:
+            if isinstance(op, ast.RShift) and 0 <= b <= 4096:
                 return a >> b
             if isinstance(op, ast.BitAnd):
                 return a & b
@@ -255,6 +294,8 @@ class Evaluator:
         for st in body:
             try:
                 o = self.step(st)
+            except ModelRaise as mr:
+                return Outcome("raise", mr.outcome.value, st)
             except Unsupported:
                 if stop_at_unsupported:
                     return Outcome("fall", None, st)
